@@ -7,6 +7,7 @@ MCCleanOf(f) == "fxclean:" \o f
 \* fixtures: f_ok (detail "fxd"), f_tb (detail named "traceback": collides with generated names),
 \*           f_bad (setUp fails after adding detail "fxd"), f_cr (cleanUp raises an error)
 MCFixtureSetUpFails(f) == f = "f_bad"
+MCFixtureGatherRaises(f) == f = "f_gr"
 MCFixtureCleanKind(f) == IF f = "f_cr" THEN "err" ELSE None
 MCFixtureDetails(f) == CASE f = "f_tb" -> {Name("traceback", 0)}
                          [] f = "f_two" -> {Name("traceback", 0), Name("traceback", 1)}
